@@ -67,6 +67,12 @@ C01Group(i) ==
   \cup { <<"C01.reward_member", LeafOK(e.lv.reward, Hdr.decl.reward_leaf) /\ LeafBounds(e.lv.reward, Hdr.decl.reward_leaf)>>,
          <<"C01.discount_member", LeafOK(e.lv.discount, Hdr.decl.discount_leaf) /\ LeafBounds(e.lv.discount, Hdr.decl.discount_leaf)>>,
          <<"C01.impl_validate_agrees", e.lv.validate_ok>> }
+  \cup (IF i = 2      \* once per configuration: the generated action is a member of the action spec and step accepts it
+        THEN LET g == Hdr.decl.generated_action IN
+             { <<"C01.generated_action_member", LeafOK(g.lv, Hdr.decl.action_leaf) /\ LeafBounds(g.lv, Hdr.decl.action_leaf)
+                                                /\ g.validate_ok>>,
+               <<"C01.generated_action_accepted", g.accepted>> }
+        ELSE {})
 
 (***************************************************************************)
 (* C11 (generic part): with T the time limit requested by the harness,     *)
